@@ -376,92 +376,87 @@ def squeeze_da(da, dim, drop):
 
 
 def isel_variable(v: Variable, idx: dict, missing_dims='raise'):
-    """XR-ISEL: integer -> drop dim; slice -> slice; DataArray/array of ints -> pointwise (vectorised)."""
+    """XR-ISEL: integer -> drop dim; slice -> slice; DataArray / 1-d array of ints -> pointwise (vectorised) indexing.
+
+    Vectorised indexing follows Variable._broadcast_indexes_vectorized: the output dimensions are the ordered union, in the
+    order of the variable's own dimensions, of the kept dimensions and of each indexer's dimensions at the indexed
+    dimension's position; a kept dimension that also is a dimension of an indexer is indexed pointwise
+    (result[.., y, x] = v[.., idx[y, x], y, x])."""
     used('XR-ISEL')
-    for d in idx:
-        if d not in v.dims and missing_dims == 'raise':
-            pass   # caller (dataset) validates against dataset dims
     rel = {d: i for d, i in idx.items() if d in v.dims}
     if not rel:
         return v
-    vec = {d: i for d, i in rel.items() if isinstance(i, (XDataArray, NDArray))}
-    new_dims_vec = None
-    vec_arrs = {}
+    vec = {}
+    for d, i in rel.items():
+        if isinstance(i, XDataArray):
+            if i.variable.dims == ():
+                rel = dict(rel)
+                rel[d] = i.variable.arr.fn(())
+                continue
+            vec[d] = (i.variable.dims, i.variable.arr)
+        elif isinstance(i, NDArray):
+            if i.ndim != 1:
+                raise Unsupported('isel with multi-dimensional plain array')
+            vec[d] = ((d,), i)
     if vec:
-        dimsets = []
-        for d, i in vec.items():
-            if isinstance(i, XDataArray):
-                dimsets.append(i.dims)
-                vec_arrs[d] = i.variable.arr
-            else:
-                if i.ndim != 1:
-                    raise Unsupported('isel with multi-dimensional plain array')
-                dimsets.append((d,))
-                vec_arrs[d] = i
-        if any(ds != dimsets[0] for ds in dimsets):
-            raise Unsupported('isel with differently-dimensioned indexers (outer indexing)')
-        new_dims_vec = dimsets[0]
         used('XR-ISEL-POINTWISE')
     src = v.arr
     out_dims = []
-    plan = []   # per source axis
-    vec_pos = None
-    vshape = None
+    size_of = {}
+    plan = []   # per source axis: ('keep', dim) | ('slice', start, step, dim) | ('int', k) | ('vec', dims, arr, n)
+
+    def add_dim(d, n):
+        if d in size_of:
+            if not (same(n, size_of[d]) or known_true(s_eq(n, size_of[d]))):
+                raise Unsupported(f'isel: indexer and data differ in size along {d!r} (alignment / IndexError)')
+            return
+        size_of[d] = n
+        out_dims.append(d)
     for ax, d in enumerate(v.dims):
         n = src.shape[ax]
         if d in vec:
-            if vec_pos is None:
-                vec_pos = len(out_dims)
-                vshape = vec_arrs[d].shape
-                out_dims.extend(new_dims_vec)
-            plan.append(('vec', vec_arrs[d], n))
+            vdims, varr = vec[d]
+            for dd, nn in zip(vdims, varr.shape):
+                add_dim(dd, nn)
+            plan.append(('vec', vdims, varr.frozen(), n))
         elif d in rel:
             i = rel[d]
+            if isinstance(i, Maybe):
+                i = core.resolve_maybe(i)
             if isinstance(i, slice):
                 st, step, ln = np.slice_params(i, n)
-                plan.append(('slice', st, step, ln, len(out_dims)))
-                out_dims.append(d)
+                add_dim(d, ln)
+                plan.append(('slice', st, step, d))
             elif isinstance(i, (int, SInt)) and not isinstance(i, bool):
                 plan.append(('int', src._norm_scalar_index(i, n)))
+            elif hasattr(i, '_int'):
+                plan.append(('int', src._norm_scalar_index(i._int(), n)))
             else:
                 raise Unsupported(f'isel indexer {type(i).__name__}')
         else:
-            plan.append(('keep', len(out_dims)))
-            out_dims.append(d)
-    if len(set(out_dims)) != len(out_dims):
-        raise Unsupported('isel produced duplicate dimensions')
-    shape = []
-    for p in plan:
-        pass
-    # output shape following out_dims order
-    shape_by_dim = {}
-    for ax, (d, p) in enumerate(zip(v.dims, plan)):
-        if p[0] == 'keep':
-            shape_by_dim[d] = src.shape[ax]
-        elif p[0] == 'slice':
-            shape_by_dim[d] = p[3]
-    if vec:
-        for d, n in zip(new_dims_vec, vshape):
-            shape_by_dim[d] = n
-    shape = tuple(shape_by_dim[d] for d in out_dims)
-    nvec = len(new_dims_vec) if vec else 0
+            add_dim(d, n)
+            plan.append(('keep', d))
+    out_dims = tuple(out_dims)
+    shape = tuple(size_of[d] for d in out_dims)
+    src = src.frozen()
 
     def remap(o):
+        env = dict(zip(out_dims, o))
         out = []
         for p in plan:
             if p[0] == 'keep':
-                out.append(o[p[1]])
+                out.append(env[p[1]])
             elif p[0] == 'slice':
-                out.append(p[1] + o[p[4]] * p[2])
+                out.append(p[1] + env[p[3]] * p[2])
             elif p[0] == 'int':
                 out.append(p[1])
             else:
-                k = p[1].fn(tuple(o[vec_pos:vec_pos + nvec]))
-                out.append(np._wrapneg(k, p[2]))
+                k = p[2].fn(tuple(env[dd] for dd in p[1]))
+                out.append(np._wrapneg(k, p[3]))
         return tuple(out)
     arr = NDArray(shape, lambda o: src.fn(remap(o)), src.dtype,
                   (lambda o: src.mask_fn(remap(o))) if src.mask_fn is not None else None)
-    return Variable(tuple(out_dims), arr, v.attrs, v.encoding)
+    return Variable(out_dims, arr, v.attrs, v.encoding)
 
 
 class XDataset:
